@@ -144,9 +144,8 @@ class BackgroundService(abc.ABC):
         """
         if not self._tasks:
             return
-        self.cancel(msg)
         try:
-            await self.wait()
+            await self._wait_all(cancel=True, msg=msg)
         except BaseExceptionGroup as exc_group:
             # We want to ignore CancelledError here as we explicitly cancelled all the
             # tasks.
@@ -194,9 +193,27 @@ class BackgroundService(abc.ABC):
                 exception (`CancelError` is not considered an error and not returned in
                 the exception group).
         """
+        await self._wait_all()
+
+    async def _wait_all(self, *, cancel: bool = False, msg: str | None = None) -> None:
+        """Wait until all tasks are finished, including the ones added while waiting.
+
+        Args:
+            cancel: Whether to cancel the tasks before waiting for them. Tasks added
+                while waiting are cancelled too.
+            msg: The message to be passed to the tasks being cancelled.
+
+        Raises:
+            BaseExceptionGroup: If any of the tasks spawned by this service raised an
+                exception.
+        """
+        exceptions: list[BaseException] = []
         # We need to account for tasks that were created between when we started
-        # awaiting and we finished awaiting.
+        # awaiting and we finished awaiting, so we only raise once there are no
+        # tasks left.
         while self._tasks:
+            if cancel:
+                self.cancel(msg)
             done, pending = await asyncio.wait(self._tasks)
             assert not pending
 
@@ -204,7 +221,6 @@ class BackgroundService(abc.ABC):
             # started waiting.
             self._tasks = self._tasks - done
 
-            exceptions: list[BaseException] = []
             for task in done:
                 try:
                     # This will raise a CancelledError if the task was cancelled or any
@@ -212,10 +228,10 @@ class BackgroundService(abc.ABC):
                     _ = task.result()
                 except BaseException as error:  # pylint: disable=broad-except
                     exceptions.append(error)
-            if exceptions:
-                raise BaseExceptionGroup(
-                    f"Error while stopping background service {self}", exceptions
-                )
+        if exceptions:
+            raise BaseExceptionGroup(
+                f"Error while stopping background service {self}", exceptions
+            )
 
     def __await__(self) -> collections.abc.Generator[None, None, None]:
         """Await this background service.
